@@ -31,10 +31,13 @@ pub struct Sched {
     pub cv_waits: u8,
     /// the shim `sleep` was reached (FutWait::fut_wait sleeping inside poll)
     pub slept: bool,
-    /// shim operations the outer operation has executed since every other actor finished
+    /// a shim condvar wait was entered during the concurrent phase
+    pub cv_entered: bool,
+    /// shim operations the outer operation has executed since the last injection
     pub idle_steps: u32,
-    /// outer operation is allowed to spin this many steps with nobody else left to run before
-    /// the stuck detector is consulted (0 = detector off)
+    /// (waiting scenarios) the outer operation may take this many steps without anybody else
+    /// running; beyond that it is spinning: with nobody left to run the stuck detector decides,
+    /// otherwise the schedule is unfair (the others never get the CPU) and is pruned.  0 = off
     pub idle_limit: u32,
 }
 
@@ -51,6 +54,7 @@ pub static mut SCHED: Sched = Sched {
     blocked_seen: false,
     cv_waits: 0,
     slept: false,
+    cv_entered: false,
     idle_steps: 0,
     idle_limit: 0,
 };
@@ -88,6 +92,7 @@ pub fn configure(max_depth: u8, budget: u8, kinds: u16, per_site: u8) {
     s.blocked_seen = false;
     s.cv_waits = 0;
     s.slept = false;
+    s.cv_entered = false;
     s.idle_steps = 0;
     s.idle_limit = 0;
 }
@@ -126,6 +131,7 @@ pub fn cv_wait_impl<Sc: Scenario>(addr: usize) {
         Sc::stuck();
         return;
     }
+    s.cv_entered = true;
     let n0 = unsafe { *(addr as *const usize) };
     let mut rounds = 0;
     while rounds < 6 {
@@ -141,6 +147,7 @@ pub fn cv_wait_impl<Sc: Scenario>(addr: usize) {
         kani::assume(c != 0);
         s.depth += 1;
         s.injected += 1;
+        s.idle_steps = 0;
         Sc::inject(c);
         let s = st();
         s.depth -= 1;
@@ -162,12 +169,14 @@ pub fn point_impl<Sc: Scenario>(kind: u8, _addr: usize) {
     if s.depth >= s.max_depth {
         return;
     }
-    if s.idle_limit != 0 && s.depth == 0 && Sc::others_done() {
+    if s.idle_limit != 0 && s.depth == 0 {
         s.idle_steps += 1;
         if s.idle_steps > s.idle_limit {
-            Sc::stuck();
+            if Sc::others_done() {
+                Sc::stuck();
+            }
+            kani::assume(false);
         }
-        return;
     }
     if (s.kinds >> kind) & 1 == 0 {
         return;
@@ -183,6 +192,7 @@ pub fn point_impl<Sc: Scenario>(kind: u8, _addr: usize) {
         }
         s.budget -= 1;
         s.injected += 1;
+        s.idle_steps = 0;
         s.depth += 1;
         let saved = s.steps;
         s.steps = 0;
